@@ -57,4 +57,8 @@ impl From<RawError> for Error {
     }
 }
 
+//@ASSUME Debug for Error (derived in /repo; only `unwrap`'s panic message uses it): left outside verification
+#[verifier::external]
+impl std::fmt::Debug for Error { fn fmt(&self, _f: &mut std::fmt::Formatter<'_>) -> std::fmt::Result { unimplemented!() } }
+
 pub type Result<T> = std::result::Result<T, Error>;
